@@ -14,6 +14,7 @@ ALL library behaviours.
 -/
 import CtyModel.Lemmas.StdNumStr
 import CtyModel.Lemmas.StdNumMisc
+import CtyModel.Lemmas.StdNumFmt
 import CtyModel.Props.C02
 namespace CtyModel
 namespace C14
@@ -474,6 +475,61 @@ theorem csvdecode_result_type (L : Lib) (s : String) (v : Value) (h : csvDecodeI
           | err c => rw [hx] at h; cases h
           | panic w => rw [hx] at h; cases h
           | unmodelled => rw [hx] at h; cases h
+
+/-! ## format: verb scanner, argument bookkeeping, width / precision on clusters -/
+
+/-- Width is measured in grapheme clusters: a field at least as wide as the width is
+left alone, a narrower one is padded to exactly the missing number of clusters —
+on the left, or on the right with the `-` flag; with zeros when the `0` flag is set. -/
+theorem format_width_on_clusters (clusters : String → List String) (v : Verb) (s : String) (h : v.hasWidth = true) :
+    ((clusters s).length ≥ v.width → padWidth clusters v s = s) ∧
+    ((clusters s).length < v.width →
+      padWidth clusters v s =
+        (let pads := String.ofList (List.replicate (v.width - (clusters s).length) (if v.zero then '0' else ' '))
+         if v.minus then s ++ pads else pads ++ s)) :=
+  ⟨padWidth_wide clusters v s h, padWidth_pads clusters v s h⟩
+
+/-- Full statement "for strings, precision limits the input to that many clusters":
+FALSE of the code for precision 0 (`%.0s`, `%.s`), which is not applied at all. -/
+def StringPrecisionLimits : Prop := ∀ (clusters : String → List String) (v : Verb) (s : String),
+  v.hasPrec = true → precCut clusters v s = String.join ((clusters s).take v.prec)
+
+/-- … for a positive precision the string is cut after exactly that many whole clusters. -/
+theorem format_string_precision_partial (clusters : String → List String) (v : Verb) (s : String)
+    (h : v.hasPrec = true) (hp : 0 < v.prec) :
+    precCut clusters v s = String.join ((clusters s).take v.prec) :=
+  precCut_pos clusters v s h hp
+
+/-- the witness: `%.0s` of "a" -/
+theorem format_string_precision_counterexample :
+    precCut (fun s => [s]) { raw := [], offset := 0, argNum := 1, hasPrec := true, prec := 0 } "a" = "a" ∧
+    String.join (([("a" : String)]).take 0) = "" := by
+  constructor <;> decide
+
+theorem stringPrecisionLimits_false : ¬ StringPrecisionLimits := by
+  intro h
+  have := h (fun s => [s]) { raw := [], offset := 0, argNum := 1, hasPrec := true, prec := 0 } "a" rfl
+  rw [format_string_precision_counterexample.1] at this
+  revert this
+  decide
+
+/-- A verb that asks for an argument beyond the ones given is an error. -/
+theorem format_not_enough_arguments (L : Lib) (v : Verb) (args : List Value) (h : args.length < v.argNum) :
+    formatAppend L v args = .err "not enough arguments" :=
+  formatAppend_missing L v args h
+
+/-- The documented verb grammar: flags, width, precision, `[n]`, letter — examples of
+what the scanner accepts and rejects (the argument number defaults to the next one,
+`[n]` overrides it). -/
+theorem format_scanner_examples :
+    (scanVerb ['-', '5', '.', '2', '[', '3', ']', 'd', '!'] 7 1).map
+      (fun r => (r.1.argNum, r.1.hasWidth, r.1.width, r.1.hasPrec, r.1.prec, r.1.minus, r.1.mode, r.2)) =
+      some (3, true, 5, true, 2, true, 'd', ['!']) ∧
+    (scanVerb ['s'] 0 4).map (fun r => (r.1.argNum, r.1.hasWidth, r.1.hasPrec, r.1.mode)) = some (4, false, false, 's') ∧
+    (scanVerb ['0', '8', '.', 'f'] 0 1).map (fun r => (r.1.zero, r.1.width, r.1.hasPrec, r.1.prec)) = some (true, 8, true, 0) ∧
+    scanVerb ['5'] 0 1 = none ∧ scanVerb ['[', '0', ']', 'd'] 0 1 = none ∧ scanVerb ['.', '2'] 0 1 = none ∧
+    scanVerb ['[', '1', 'd'] 0 1 = none ∧ scanVerb ['$'] 0 1 = none :=
+  ⟨rfl, rfl, rfl, rfl, rfl, rfl, rfl, rfl⟩
 
 /-! ## Non-vacuity -/
 example : Normal (.fin true 5 (-1) 53) := by unfold Normal; decide
